@@ -10,13 +10,17 @@
    together with lines_contiguous this is "nothing lost, duplicated, reordered or split off its cluster".
    The composition goes through the store-structure invariant of Proofs/WrapStore.v.
    The empty paragraph (n = 0) is covered by empty_paragraph_calls / empty_paragraph_wrap.
-   NOT proved as a theorem: "Advance = sum of the glyph advances" at return time (advance_is_sum_partial states it at the
-   time of the cut).  It is no longer false of the model: finding F6 (a run placed whole kept the stale Advance of an input
-   edited through aliasing slices) is repaired in the library (a run placed whole has its advance recomputed from its
-   glyphs: fillUntil and the single-run fast path) and the model follows; the oracle checks the clause on every returned
-   line, the former witness is a regression record in Findings/Wrap.v (f6_repaired). *)
+   advance_is_sum_returned (FULL, Proofs/WrapAdvFull.v): "Advance = sum of the glyph advances" holds for every text run of the
+   line a WrapNextLine call returns, on the store as it is when the call returns - any store, start letter spacing included
+   (advance_is_sum_partial states it at the time of the cut; finding F6 - a run placed whole kept the stale Advance of an
+   input edited through aliasing slices - is repaired in the library and the model follows; the former witness is a
+   regression record in Findings/Wrap.v, f6_repaired).  advance_is_sum_all_lines / advance_is_sum_paragraph (FULL,
+   Proofs/WrapAdvFrame.v): the same for EVERY line of a call sequence and of WrapParagraph on the FINAL store - a later call
+   touches no glyph of a line returned earlier; for WrapParagraph the conclusion is the oracle's own advance clause,
+   Spec/Wrap.v conservation_advance. *)
 From TV Require Import Model.WrapBuf Spec.WrapBuf Proofs.WrapBuf.
-From TV Require Import Model.Wrap Spec.Wrap Spec.WrapCut Proofs.Wrap Proofs.WrapCut Proofs.WrapLines Proofs.WrapTotal Proofs.WrapStore Proofs.WrapEmpty.
+From TV Require Import Model.Wrap Spec.Wrap Spec.WrapCut Proofs.Wrap Proofs.WrapCut Proofs.WrapLines Proofs.WrapTotal Proofs.WrapStore Proofs.WrapEmpty
+  Proofs.WrapAdvRet Proofs.WrapAdvFull Proofs.WrapAdvFrame.
 
 (* best_is_prefix_cut (partial): from any state satisfying the line invariant, processBreakOption keeps the invariant
    (candidate prefix = chain of non-empty whole/cut runs from lineStartRune ending where the cursor run starts, same for
@@ -353,3 +357,157 @@ Example line_storage_example :
     /\ map lr_view rs = [Some (0, 2); Some (2, 2); None]%nat /\ map lr_line rs = [Some [1; 2]; Some [3; 4]; Some [5; 6]]%Z
     /\ bf_used b' = 4%nat /\ bf_exh b' = true.
 Proof. vm_compute. eexists _, _. repeat split; reflexivity. Qed.
+
+(* ---- Advance = sum of the glyph advances at RETURN time (Proofs/WrapAdvRet.v, Proofs/WrapAdvFull.v) ------------------- *)
+
+(* advance_is_sum_returned (FULL: the advance clause of the property at return time, one WrapNextLine call).  Prepare on
+   well-formed runs, ANY sequence of WrapNextLine calls with any widths reaching a live state wk, one more call that
+   returns a line: every text run of that line (every run but the appended truncator, whose glyph array lies after the
+   runs' arrays) has Advance = sum of its glyphs' advances ON THE STORE AS RETURNED by the call (Spec/Wrap.v advance_ok,
+   what the oracle conservation_advance evaluates).  ANY store: start letter spacing, any advances, any policy, width,
+   truncation setting, trim flag.  The argument (Proofs/WrapAdvFull.v, invariant GA through fillUntil,
+   processBreakOption and both loops of wrapNextLine, then postProcessLine):
+   * a run placed whole is recomputed by fillUntil (repair of F6), a piece is recomputed by cutRun after its own trim;
+   * the loops edit the store only by trimStartLetterSpacing on Glyphs[0] of a piece cut as FIRST in its line; when that
+     happens the candidate prefix and the checkpoint are empty, and the best line is empty or a single piece whose
+     Glyphs[0] is trimmed already; the new piece starts at the same rune and ends at or after it (candidates never get
+     shorter than the best line), so its Glyphs[0] IS the best piece's Glyphs[0] (the trim is the identity there) or lies
+     outside its slice (trim_of_longer_candidate_keeps_piece below): the best line keeps Advance = sum;
+   * postProcessLine zeroes at most one glyph, inside the slice of the last visual run, and recomputes that run; the
+     glyph lies in no other run of the line (exact pieces over disjoint rune ranges, every cluster holds a rune).
+   That a LATER call leaves the glyphs of the lines returned EARLIER alone (the lines of WrapParagraph are all read after
+   the last call) is advance_is_sum_all_lines / advance_is_sum_paragraph below. *)
+Theorem advance_is_sum_returned : forall n w cfg attrs runs widths wk rs mw w' wl d line,
+  wf_runs (w_st w) runs n = true -> zlen attrs - 1 = n -> 1 <= n ->
+  run_calls (prepare w cfg attrs runs 0 0) widths = Ok (wk, rs) -> w_more wk = true ->
+  zlen runs <= o_src (c_truncator (w_cfg wk)) ->
+  wrap_next_line wk mw = Ok (w', wl, d) -> wl_line wl = Some line ->
+  forallb (advance_ok (w_st w')) (text_runs (o_src (c_truncator (w_cfg wk))) line) = true.
+Proof. exact advance_returned_calls_full. Qed.
+Print Assumptions advance_is_sum_returned.
+
+(* non-vacuity with start letter spacing: one right-to-left run "a b c" stored c b a, start letter spacing 16 on every
+   glyph, policy Always, maxWidth 1: the first call tries the whole text [0,3) (the UAX #14 option), then [0,1) and
+   [0,2), trimming Glyphs[0] of each candidate - glyphs 0, 2 and 1 - and returns [0,1) = glyph 2 alone, Advance 48 = its
+   trimmed advance; the other two trimmed glyphs belong to the next lines *)
+Example advance_returned_full_example :
+  let st := [[mkGlyph 2 1 1 64 64 0 16 0; mkGlyph 1 1 1 64 64 0 16 0; mkGlyph 0 1 1 64 64 0 16 0]; []] in
+  let runs := [mkOut 192 1 0 3 0 0 3 0] in
+  let wk := prepare (w_zero st) (mkCfg 1 0 (mkOut 0 0 0 0 1 0 0 0) false 2 true) [4; 4; 4; 7] runs 0 0 in
+  wf_runs st runs 3 = true /\ zlen runs <= 1
+  /\ exists w' l, wrap_next_line wk 1 = Ok (w', mkWrapped (Some l) 0 1, false) /\ map o_adv l = [48] /\ map o_lo l = [2]
+       /\ map g_adv (src_array (w_st w') 0) = [48; 48; 48].
+Proof.
+  cbv zeta. split; [vm_compute; reflexivity|]. split; [vm_compute; discriminate|].
+  vm_compute. eexists _, _. repeat split; reflexivity.
+Qed.
+
+(* the special case proved first (Proofs/WrapAdvRet.v): stores without start letter spacing (no_start_spacing: g_sls = 0 for
+   every glyph), where the loops do not touch the store at all; a corollary of advance_is_sum_returned, kept *)
+Theorem advance_is_sum_returned_partial : forall n w cfg attrs runs widths wk rs mw w' wl d line,
+  wf_runs (w_st w) runs n = true -> zlen attrs - 1 = n -> 1 <= n ->
+  run_calls (prepare w cfg attrs runs 0 0) widths = Ok (wk, rs) -> w_more wk = true ->
+  zlen runs <= o_src (c_truncator (w_cfg wk)) ->
+  no_start_spacing (w_st wk) = true ->
+  wrap_next_line wk mw = Ok (w', wl, d) -> wl_line wl = Some line ->
+  forallb (advance_ok (w_st w')) (text_runs (o_src (c_truncator (w_cfg wk))) line) = true.
+Proof. exact advance_returned_calls. Qed.
+Print Assumptions advance_is_sum_returned_partial.
+
+(* non-vacuity: "a SP" + "b": at maxWidth 2 the first line is [0,2) = the whole first run; its trailing space (Width 0) is
+   zeroed in the store by postProcessLine and the run's Advance follows: 64, not the 128 the input run carried *)
+Example advance_returned_example :
+  let st := [[mkGlyph 0 1 1 64 64 0 0 0; mkGlyph 1 1 1 64 0 0 0 0]; [mkGlyph 2 1 1 64 64 0 0 0]; []] in
+  let runs := [mkOut 128 0 0 2 0 0 2 0; mkOut 64 0 2 1 1 0 1 0] in
+  let wk := prepare (w_zero st) (mkCfg 0 0 (mkOut 0 0 0 0 2 0 0 0) false 0 false) [4; 4; 5; 7] runs 0 0 in
+  wf_runs st runs 3 = true /\ no_start_spacing st = true /\ zlen runs <= 2
+  /\ exists w' l, wrap_next_line wk 2 = Ok (w', mkWrapped (Some l) 0 2, false) /\ map o_adv l = [64]
+       /\ map g_adv (src_array (w_st w') 0) = [64; 0].
+Proof.
+  cbv zeta. split; [vm_compute; reflexivity|]. split; [vm_compute; reflexivity|]. split; [vm_compute; discriminate|].
+  vm_compute. eexists _, _. repeat split; reflexivity.
+Qed.
+
+(* the core of the argument for stores WITH start letter spacing, used by advance_is_sum_returned:
+   trimStartLetterSpacing applied to Glyphs[0] of an exact piece r (a candidate that is first in its line) leaves the
+   glyphs - hence the Advance = sum equation - of an exact piece x with the same first rune and an end at or before the end
+   of r (the best line recorded earlier: candidates never get shorter) untouched, provided Glyphs[0] of x has been
+   trimmed already (x was cut as first in line): Glyphs[0] of r IS Glyphs[0] of x, where the trim is the identity, or
+   lies outside the slice of x.  Left-to-right and right-to-left runs alike; any store, any two exact pieces. *)
+Theorem trim_of_longer_candidate_keeps_piece : forall st rs n x r,
+  wf_runs st rs n = true -> piece_ok st rs x = true -> piece_ok st rs r = true ->
+  o_off r = o_off x -> (o_src x = o_src r -> out_end x <= out_end r) -> 0 < o_len r ->
+  (0 < o_len x -> g_sls (znth glyph_zero (src_array st (o_src x)) (o_lo x)) = 0) ->
+  out_glyphs (store_update st (o_src r) (o_lo r) trim_glyph) x = out_glyphs st x.
+Proof. exact trim_longer_piece_safe. Qed.
+Print Assumptions trim_of_longer_candidate_keeps_piece.
+
+(* non-vacuity: a right-to-left run of three one-rune clusters (stored c b a), start letter spacing 16 on every glyph but
+   the one of rune 0, which is trimmed: x = runes [0,1) (glyph 2), r = runes [0,2) (glyphs 1..2); trimming Glyphs[0] of r
+   (glyph 1) changes the store and leaves the glyphs of x alone *)
+Example trim_keeps_piece_example :
+  let st := [[mkGlyph 2 1 1 64 64 0 16 0; mkGlyph 1 1 1 64 64 0 16 0; mkGlyph 0 1 1 48 64 0 0 0]] in
+  let rs := [mkOut 176 1 0 3 0 0 3 0] in
+  let x := mkOut 48 1 0 1 0 2 1 0 in let r := mkOut 112 1 0 2 0 1 2 0 in
+  wf_runs st rs 3 = true /\ piece_ok st rs x = true /\ piece_ok st rs r = true /\ out_end x <= out_end r
+  /\ g_sls (znth glyph_zero (src_array st (o_src x)) (o_lo x)) = 0
+  /\ store_update st (o_src r) (o_lo r) trim_glyph <> st.
+Proof. cbv zeta. repeat split; try (vm_compute; reflexivity); vm_compute; discriminate. Qed.
+
+(* ---- every line, on the FINAL store (Proofs/WrapAdvFrame.v) --------------------------------------------------------------- *)
+
+(* advance_is_sum_all_lines (FULL: the advance clause of the property for the iterative API).  Prepare on well-formed runs
+   (the truncator's glyph array after the runs' arrays), ANY sequence of WrapNextLine calls with any widths, calls after done
+   included: for EVERY result of the sequence, every text run of its line has Advance = sum of its glyphs' advances on
+   the store as it is AFTER THE LAST CALL.  On top of advance_is_sum_returned: every store edit of a call at line start s
+   is made inside the glyph slice of an exact piece that starts at or after s (the start-letter-spacing trim of a
+   first-in-line piece, the trailing-whitespace trim in the last visual run of the new line), the runs of earlier lines
+   are exact pieces that end at or before s, so their glyphs are untouched (frame property followed through fillUntil,
+   processBreakOption, both loops and postProcessLine for an arbitrary store predicate closed under such trims). *)
+Theorem advance_is_sum_all_lines : forall n w cfg attrs runs widths w' res,
+  wf_runs (w_st w) runs n = true -> zlen attrs - 1 = n -> 1 <= n ->
+  zlen runs <= o_src (c_truncator cfg) ->
+  run_calls (prepare w cfg attrs runs 0 0) widths = Ok (w', res) ->
+  Forall (line_adv_ok (w_st w') (o_src (c_truncator cfg))) res.
+Proof. exact advance_all_lines_calls. Qed.
+Print Assumptions advance_is_sum_all_lines.
+
+(* non-vacuity: the paragraph of advance_paragraph_example below through the iterative API with widths 2, 1, 2 and two
+   more calls after done: five results, three lines, two nil lines *)
+Example advance_all_lines_example :
+  let st := [[mkGlyph 0 1 1 80 64 0 16 0; mkGlyph 1 1 1 80 0 0 16 0; mkGlyph 2 1 1 80 64 0 16 0]; [mkGlyph 3 1 1 80 64 0 16 0]; []] in
+  let runs := [mkOut 240 0 0 3 0 0 3 0; mkOut 80 0 3 1 1 0 1 0] in
+  let cfg := mkCfg 0 0 (mkOut 0 0 0 0 2 0 0 0) false 2 false in
+  wf_runs st runs 4 = true /\ zlen runs <= o_src (c_truncator cfg)
+  /\ exists w' res, run_calls (prepare (w_zero st) cfg [4; 4; 5; 4; 7] runs 0 0) [2; 1; 2; 2; 2] = Ok (w', res)
+       /\ map (fun x => (wl_next (fst x), snd x)) res = [(2, false); (3, false); (4, true); (4, true); (4, true)].
+Proof.
+  cbv zeta. split; [vm_compute; reflexivity|]. split; [vm_compute; discriminate|].
+  vm_compute. eexists _, _. split; reflexivity.
+Qed.
+
+(* advance_is_sum_paragraph (FULL: the advance clause of the property for WrapParagraph): on well-formed input the lines
+   WrapParagraph returns satisfy the oracle's own advance clause on the returned store - Spec/Wrap.v conservation_advance:
+   Advance = sum of the glyph advances for every text run of every line (single-run fast path included). *)
+Theorem advance_is_sum_paragraph : forall n w cfg attrs runs mw w' ls tr,
+  wf_runs (w_st w) runs n = true -> zlen attrs - 1 = n -> 1 <= n ->
+  zlen runs <= o_src (c_truncator cfg) ->
+  wrap_paragraph w cfg mw attrs runs = Ok (w', ls, tr) ->
+  conservation_advance (w_st w') (o_src (c_truncator cfg)) ls = true.
+Proof. exact advance_all_lines_paragraph. Qed.
+Print Assumptions advance_is_sum_paragraph.
+
+(* non-vacuity: "a SP b" (the space has zero Width, every glyph start letter spacing 16) + "c" at maxWidth 2 under policy
+   Always: three lines come back; the stores edits of the three calls (trims at line starts, zeroed trailing space) are
+   all visible in the final store and every line still has Advance = sum *)
+Example advance_paragraph_example :
+  let st := [[mkGlyph 0 1 1 80 64 0 16 0; mkGlyph 1 1 1 80 0 0 16 0; mkGlyph 2 1 1 80 64 0 16 0]; [mkGlyph 3 1 1 80 64 0 16 0]; []] in
+  let runs := [mkOut 240 0 0 3 0 0 3 0; mkOut 80 0 3 1 1 0 1 0] in
+  let cfg := mkCfg 0 0 (mkOut 0 0 0 0 2 0 0 0) false 2 false in
+  wf_runs st runs 4 = true /\ zlen runs <= o_src (c_truncator cfg)
+  /\ exists w' ls, wrap_paragraph (w_zero st) cfg 2 [4; 4; 5; 4; 7] runs = Ok (w', ls, 0) /\ zlen ls = 3
+       /\ w_st w' <> st /\ conservation_advance (w_st w') 2 ls = true.
+Proof.
+  cbv zeta. split; [vm_compute; reflexivity|]. split; [vm_compute; discriminate|].
+  vm_compute. eexists _, _. split; [reflexivity|]. split; [reflexivity|]. split; [discriminate|reflexivity].
+Qed.
